@@ -237,6 +237,8 @@ _leaf = st.one_of(st.sampled_from(sorted(VARS)), st.sampled_from(['1', '2', '0.5
 _tree = st.recursive(_leaf, lambda ch: st.one_of(
     st.tuples(ch, st.sampled_from(['+', '-', '*', '/', '//', '%', '**', '<', '<=', '==', '!=', '>', 'in', '&', '|']), ch)
     .map(lambda t: '(%s %s %s)' % t),
+    # chained comparisons: each link is a comparison of its own two neighbours
+    st.tuples(ch, st.sampled_from(['<', '<=', '==', '!=', '>']), ch, st.sampled_from(['<', '<=', '!=', '>', 'in']), ch).map(lambda t: '(%s %s %s %s %s)' % t),
     ch.map(lambda c: '(not %s)' % c)), max_leaves=6)
 
 
